@@ -10,6 +10,8 @@ from harness.core import Collector, check, run_hypothesis
 from harness.ropt_util import AffineEvaluator, ConstraintScaler, DesignSamplerPlugin, ObjectiveScaler
 from ropt.config.enopt import EnOptConfig
 from ropt.ensemble_evaluator import EnsembleEvaluator
+from ropt.enums import OptimizerExitCode
+from ropt.exceptions import OptimizationAborted
 from ropt.plugins import PluginManager
 from ropt.transforms import OptModelTransforms, VariableScaler
 
@@ -45,10 +47,20 @@ def build(case: dict[str, Any], with_transforms: bool, raw: bool = False) -> tup
                      "perturbation_types": case["types"], "boundary_types": case["boundary"]},
         "samplers": [{"method": "design/fixed"}],
     }
+    if case.get("default_magnitudes"):  # the documented default magnitude is a user-domain quantity like a configured one
+        del cfg["gradient"]["perturbation_magnitudes"]
+    if case.get("cvar") and (case["cvar"][0] == "cvar-objective" or c_n):
+        kind, percentile = case["cvar"]
+        cfg["realization_filters"] = [{"method": kind, "options": {"sort": [0] if kind == "cvar-objective" else 0, "percentile": percentile}}]
     if l_n:
         cfg["linear_constraints"] = {"coefficients": case["A"], "lower_bounds": case["llb"], "upper_bounds": case["lub"]}
     if c_n:
         cfg["nonlinear_constraints"] = {"lower_bounds": case["nlb"], "upper_bounds": case["nub"]}
+    if cfg.get("realization_filters"):  # the tail average of the function that is ranked (its value does not depend on how ties are ordered)
+        if case["cvar"][0] == "cvar-objective":
+            cfg["objectives"]["realization_filters"] = [0] + [-1] * (k_n - 1)
+        else:
+            cfg["nonlinear_constraints"]["realization_filters"] = [0] + [-1] * (c_n - 1)
     transforms = None
     if with_transforms:
         transforms = OptModelTransforms(
@@ -115,18 +127,35 @@ def run_case(case: dict[str, Any]) -> dict[str, Any]:
         check(bool(np.all(np.abs(transforms.variables.from_optimizer(x_opt) - x_user) <= 1e-12 * (1 + np.abs(x_user)))), "round-trip",
               "validated initial values are not the optimizer-domain image of the configured ones", case)
     ens_t, ens_u = EnsembleEvaluator(cfg_t, transforms, ev_t, mgr_t), EnsembleEvaluator(cfg_u, None, ev_u, mgr_u)
+    def both(compute_functions: bool, compute_gradients: bool) -> tuple[Any, Any] | None:  # noqa: FBT001
+        out = []
+        for ens, x_ in ((ens_t, x_opt), (ens_u, x_user)):
+            try:
+                out.append(ens.calculate(x_, compute_functions=compute_functions, compute_gradients=compute_gradients))
+            except OptimizationAborted as exc:  # (a filter that finds no realization to select)
+                out.append(exc.exit_code)
+        ab_t, ab_u = (isinstance(o, OptimizerExitCode) for o in out)
+        check(ab_t == ab_u and (not ab_t or out[0] == out[1]), "abort-differs",
+              f"with transforms: {out[0] if ab_t else 'results'}, without: {out[1] if ab_u else 'results'}", case)
+        return None if ab_t else (out[0], out[1])
+
+    g_t = g_u = None
     if case.get("fail"):  # some realizations fail: functions only (possibly too few successes: no function values at all)
-        (f_t,) = ens_t.calculate(x_opt, compute_functions=True, compute_gradients=False)
-        (f_u,) = ens_u.calculate(x_user, compute_functions=True, compute_gradients=False)
-        g_t = g_u = None
+        pair = both(True, False)  # noqa: FBT003
+        if pair is None:
+            return {"nontrivial": False, "hit": False, "skipped": 0, "aborted": True}
+        (f_t,), (f_u,) = pair
     elif case.get("split"):  # functions first, then a gradient-only request at the same point
-        (f_t,) = ens_t.calculate(x_opt, compute_functions=True, compute_gradients=False)
-        (g_t,) = ens_t.calculate(x_opt, compute_functions=False, compute_gradients=True)
-        (f_u,) = ens_u.calculate(x_user, compute_functions=True, compute_gradients=False)
-        (g_u,) = ens_u.calculate(x_user, compute_functions=False, compute_gradients=True)
+        pair, pair_g = both(True, False), both(False, True)  # noqa: FBT003
+        if pair is None or pair_g is None:
+            return {"nontrivial": False, "hit": False, "skipped": 0, "aborted": True}
+        (f_t,), (f_u,) = pair
+        (g_t,), (g_u,) = pair_g
     else:
-        f_t, g_t = ens_t.calculate(x_opt, compute_functions=True, compute_gradients=True)
-        f_u, g_u = ens_u.calculate(x_user, compute_functions=True, compute_gradients=True)
+        pair = both(True, True)  # noqa: FBT003
+        if pair is None:
+            return {"nontrivial": False, "hit": False, "skipped": 0, "aborted": True}
+        (f_t, g_t), (f_u, g_u) = pair
     # evaluator sees the same user-domain rows
     check(len(ev_t.calls) == len(ev_u.calls), "evaluator-rows", "different number of evaluator calls", case)
     for c_t, c_u in zip(ev_t.calls, ev_u.calls):
@@ -218,7 +247,7 @@ def hypothesis_shard(item: dict[str, Any]) -> Collector:
             a_mat.append(row)
         weights = [draw(st.sampled_from([1.0, 2.0, 0.5])) for _ in range(r_n)]
         fail = sorted(draw(st.sets(st.integers(0, r_n - 1), min_size=1))) if draw(st.integers(0, 4)) == 0 else []
-        return {
+        case = {
             "fail": fail, "rmin": draw(st.integers(0, r_n)), "basic": draw(st.integers(0, 3)) == 0, "var_object": draw(st.integers(0, 3)) == 0,
             "n": n, "R": r_n, "P": p_n, "K": k_n, "C": c_n, "L": l_n, "x": x, "lb": lb, "ub": ub, "types": types,
             "magnitudes": [draw(st.sampled_from([0.01, 0.1, 0.6])) for _ in range(n)],
@@ -232,16 +261,28 @@ def hypothesis_shard(item: dict[str, Any]) -> Collector:
             "vscale": [draw(st.sampled_from([0.5, 2.0, 10.0, 1.0, 0.1])) for _ in range(n)],
             "voff": [draw(st.sampled_from([0.0, 1.0, -2.5])) for _ in range(n)],
             "oscale": [draw(st.sampled_from([2.0, 0.5, 100.0])) for _ in range(k_n)],
-            "cscale": [draw(st.sampled_from([4.0, 0.25])) for _ in range(c_n)],
+            "cscale": [draw(st.sampled_from([4.0, 0.25, 4.0, 0.25, 1e9, 1e-9])) for _ in range(c_n)],
+            "default_magnitudes": draw(st.integers(0, 4)) == 0,
+            "cvar": [draw(st.sampled_from(["cvar-objective", "cvar-constraint", "cvar-constraint"])),
+                     draw(st.sampled_from([0.3, 0.5, 0.75]))] if draw(st.integers(0, 2)) == 0 else None,
             "points": [draw(st.sampled_from([-3.0, -2.0, -1.0, -0.25, 0.0, 0.3, 0.75, 1.0, 2.5, 5.0])) for _ in range(n * 40)],
         }
+        if case["cvar"] and case["cvar"][0] == "cvar-constraint" and c_n and r_n > 1 and draw(st.booleans()):
+            # directed: a two-sided constraint whose bounds come close to each other (but stay different) in the optimizer domain
+            case["use_c"] = True
+            case["cscale"][0] = draw(st.sampled_from([1e9, 1e10, 1e12]))
+            case["nlb"][0] = draw(num)
+            case["nub"][0] = case["nlb"][0] + draw(st.sampled_from([0.5, 1.0, 3.0]))
+        return case
 
     def body(case: dict[str, Any]) -> None:
         info = run_case(case)
         col.case(case, nontrivial=info["nontrivial"], classes=(
             "var-transform" if case["use_v"] else "no-var-transform", "split" if case.get("split") else "combined", f"L={case['L']}", f"C={case['C']}",
             "bound-hit" if info["hit"] else "inside", "relative" if 2 in case["types"] else "absolute",  # noqa: PLR2004
-            "failed-realizations" if case["fail"] else "no-failures",
+            "failed-realizations" if case["fail"] else "no-failures", "default-magnitudes" if case.get("default_magnitudes") else "given-magnitudes",
+            f"filter={case['cvar'][0]}" if case.get("cvar") and (case["C"] or case["cvar"][0] == "cvar-objective") else "filter=none",
+            "extreme-constraint-scale" if case["use_c"] and case["C"] and any(v >= 1e9 or v <= 1e-9 for v in case["cscale"]) else "moderate-constraint-scale",
             "no-function-values" if case["fail"] and len(case["weights"]) - len(case["fail"]) < case["rmin"] else "function-values",
             "start-outside-bounds" if any(v < lo or v > hi for v, lo, hi in zip(case["x"], case["lb"], case["ub"])) else "start-inside-bounds"))
 
